@@ -31,7 +31,7 @@ DEFAULT_PROFILE = {
     "p_http": 0.9, "p_signature": 0.7, "p_routing": 0.25, "p_keyword_rpc": 0.08,
     "p_service_config": 0.8, "p_yaml": 0.3, "p_reserved_field": 0.08, "p_two_services": 0.25,
     "p_foreign_request": 0.1, "p_shuffle_numbers": 0.2, "p_additional_binding": 0.25,
-    "p_auto_populate": 0.0, "p_google_api_ns": 0.0, "sig_variants": False, "p_multi_var_path": 0.0, "common_file_names": ["resources"],
+    "p_auto_populate": 0.0, "p_google_api_ns": 0.0, "sig_variants": False, "p_multi_var_path": 0.0, "mixin_variants": False, "p_add_iam_methods": 0.0, "common_file_names": ["resources"],
     "transports": ["grpc", "grpc+rest", "grpc+rest", "rest"],
     "p_numeric_enums": 0.3,
     "paged_variants": False,
@@ -207,6 +207,9 @@ def gen_api(rng, prof=None):
     spec["options"]["transport"] = rng.choice(p["transports"])
     if "rest" in spec["options"]["transport"] and cx.chance("p_numeric_enums"):
         spec["options"]["rest-numeric-enums"] = True
+    own_iam = any(m["name"] in ("SetIamPolicy", "GetIamPolicy", "TestIamPermissions") for s in services for m in s["methods"])
+    if cx.chance("p_add_iam_methods") and not own_iam:
+        spec["options"]["add-iam-methods"] = True
     if cx.chance("p_service_config"):
         spec["service_config"] = gen_service_config(rng, spec)
     need_ops_mixin = any(m.get("lro") is not None for s in services for m in s["methods"]) and \
@@ -483,10 +486,19 @@ def _gen_methods(cx, pkg, main, svc, noun, res, enums, msgs):
             m["http"] = {"verb": "post", "path": f"{pre}/{{name={wild}}}:start", "body": "*"}
         svc["methods"].append(m)
 
-    if cx.chance("p_foreign_request") and _unique_method(svc, "SetIamPolicy"):
+    if cx.chance("p_foreign_request") and all(_unique_method(svc, n) for n in ("SetIamPolicy", "GetIamPolicy", "TestIamPermissions")):
         m = {"name": "SetIamPolicy", "input": ".google.iam.v1.SetIamPolicyRequest", "output": ".google.iam.v1.Policy"}
         if cx.chance("p_signature"):
             m["signatures"] = [rng.choice(["resource", "resource,policy", "resource,policy,update_mask"])]
+        if cx.p.get("mixin_variants"):
+            which = rng.choice(["SetIamPolicy", "GetIamPolicy", "TestIamPermissions"])
+            io = {"SetIamPolicy": (".google.iam.v1.SetIamPolicyRequest", ".google.iam.v1.Policy"),
+                  "GetIamPolicy": (".google.iam.v1.GetIamPolicyRequest", ".google.iam.v1.Policy"),
+                  "TestIamPermissions": (".google.iam.v1.TestIamPermissionsRequest", ".google.iam.v1.TestIamPermissionsResponse")}[which]
+            m["name"], m["input"], m["output"] = which, io[0], io[1]
+            m.pop("signatures", None)
+            if "http" in m:
+                m["http"]["path"] = m["http"]["path"].rsplit(":", 1)[0] + ":" + which[0].lower() + which[1:]
         if cx.chance("p_http"):
             m["http"] = {"verb": "post", "path": f"{pre}/{{resource={wild}}}:setIamPolicy", "body": "*"}
         svc["methods"].append(m)
@@ -746,8 +758,68 @@ def gen_service_config(rng, spec, p_named=0.7):
     return {"methodConfig": entries}
 
 
+MIXIN_RULES = {
+    "google.longrunning.Operations": {
+        "ListOperations": {"get": "/v1/{name=projects/*}/operations"},
+        "GetOperation": {"get": "/v1/{name=projects/*/operations/*}"},
+        "DeleteOperation": {"delete": "/v1/{name=projects/*/operations/*}"},
+        "CancelOperation": {"post": "/v1/{name=projects/*/operations/*}:cancel", "body": "*"},
+        "WaitOperation": {"post": "/v1/{name=projects/*/operations/*}:wait", "body": "*"},
+    },
+    "google.iam.v1.IAMPolicy": {
+        "SetIamPolicy": {"post": "/v1/{resource=projects/*/things/*}:setIamPolicy", "body": "*"},
+        "GetIamPolicy": {"post": "/v1/{resource=projects/*/things/*}:getIamPolicy", "body": "*"},
+        "TestIamPermissions": {"post": "/v1/{resource=projects/*/things/*}:testIamPermissions", "body": "*"},
+    },
+    "google.cloud.location.Locations": {
+        "GetLocation": {"get": "/v1/{name=projects/*/locations/*}"},
+        "ListLocations": {"get": "/v1/{name=projects/*}/locations"},
+    },
+}
+
+
+def gen_mixin_yaml(cx, spec, host, need_ops):
+    """Service YAML with each subset of the three mixin APIs x rule sets (DESIGN.md section 4 C17);
+    some rules carry additional_bindings (another version prefix / another collection)."""
+    rng = cx.rng
+    y = {"type": "google.api.Service", "config_version": 3, "name": host, "apis": [], "http": {"rules": []}}
+    for api, rules in MIXIN_RULES.items():
+        listed = rng.random() < 0.6 or (need_ops and api == "google.longrunning.Operations")
+        if listed:
+            y["apis"].append({"name": api})
+        # rules may be present even when the API is not listed (then nothing must be exposed)
+        if listed or rng.random() < 0.25:
+            names = [n for n in rules if rng.random() < 0.65]
+            if need_ops and api == "google.longrunning.Operations" and "GetOperation" not in names:
+                names.append("GetOperation")
+            rng.shuffle(names)
+            for n in names:
+                r = {"selector": f"{api}.{n}"}
+                r.update(rules[n])
+                if rng.random() < 0.35:
+                    verb = next(k for k in r if k in ("get", "post", "delete"))
+                    ab = {verb: r[verb].replace("/v1/", "/v1beta1/")}
+                    if "body" in r:
+                        ab["body"] = r["body"]
+                    r["additional_bindings"] = [ab]
+                    if rng.random() < 0.4:
+                        ab2 = {verb: r[verb].replace("projects/*", "organizations/*")}
+                        if "body" in r:
+                            ab2["body"] = r["body"]
+                        r["additional_bindings"].append(ab2)
+                y["http"]["rules"].append(r)
+    rng.shuffle(y["http"]["rules"])
+    if not y["apis"]:
+        del y["apis"]
+    if not y["http"]["rules"]:
+        del y["http"]
+    return y
+
+
 def gen_service_yaml(cx, spec, host, need_ops):
     rng = cx.rng
+    if cx.p.get("mixin_variants"):
+        return gen_mixin_yaml(cx, spec, host, need_ops)
     y = {"type": "google.api.Service", "config_version": 3, "name": host, "apis": [], "http": {"rules": []}}
     if need_ops or rng.random() < 0.3:
         y["apis"].append({"name": "google.longrunning.Operations"})
